@@ -14,7 +14,7 @@ PROP = 'C12'
 LEVEL = 'exploration'
 RULE = ('all 8^k (k=1..4) operand tuples for NOT/AND/OR/XOR in array (mv_*, _mv_*) and bit-parallel (bp8v_*) form, all 4^k '
         'for bp4v_*; every tuple additionally placed in each lane 0..8 of a 9-lane array beside a second tuple; shapes '
-        '(n,),(s,n),(b,s,n) and broadcasting pairs; out= omitted/fresh/garbage/aliased, bit-parallel out arrays pre-filled 00/FF/5A/A5; 4-valued operators also on three-plane operands (third plane 00/FF/A5/5A) and chained behind every other operator; distinct_nontrivial = distinct '
+        '(n,),(s,n),(b,s,n) and broadcasting pairs; out= omitted/fresh/garbage/aliased/strided view/transposed view, bit-parallel out arrays pre-filled 00/FF/5A/A5; 4-valued operators also on three-plane operands (third plane 00/FF/A5/5A) and chained behind every other operator; distinct_nontrivial = distinct '
         '(operator, form, operand tuple, result) signatures')
 ASSUMPTIONS = ['reference algebra in mc/ref.py written from the module documentation',
                'results are compared with the reference after identifying X and - (both "unknown"); array vs. bit-parallel forms are compared exactly',
@@ -285,20 +285,29 @@ def _out(lg, res, op):
                 args = (a, b, a); exp = lg.mv_latch(a, b, a)
             else:
                 args = (a, b); exp = lg.mv_transition(a, b)
-            out = np.full(exp.shape, prefill, dtype=np.uint8)
-            key = f'C12/out/{op}/shape{a.shape}/prefill{prefill}'
-            try:
-                r = getattr(lg, 'mv_' + op)(*args, out=out)
-            except Exception as ex:
-                res.violation(key + f'/exception-{type(ex).__name__}', {'task': list(task)}, f'mv_{op}(..., out=array of shape {out.shape}) raised {type(ex).__name__}: {ex}')
+            for layout in ('contiguous', 'strided', 'transposed'):
+                # the caller's array may be any writable uint8 view: every other element of a larger buffer, a transposed buffer
+                if layout == 'contiguous': out = np.full(exp.shape, prefill, dtype=np.uint8)
+                elif layout == 'strided':
+                    buf = np.full(exp.shape[:-1] + (2 * exp.shape[-1],), prefill, dtype=np.uint8); out = buf[..., ::2]
+                else:
+                    if exp.ndim != 2: continue
+                    buf = np.full(exp.shape[::-1], prefill, dtype=np.uint8); out = buf.T
+                key = f'C12/out/{op}/shape{a.shape}/prefill{prefill}' + ('' if layout == 'contiguous' else '/' + layout)
+                try:
+                    r = getattr(lg, 'mv_' + op)(*args, out=out)
+                except Exception as ex:
+                    res.violation(key + f'/exception-{type(ex).__name__}', {'task': list(task)}, f'mv_{op}(..., out={layout} array of shape {out.shape}) raised {type(ex).__name__}: {ex}')
+                    res.evals += 1
+                    continue
+                if r is not out:
+                    res.violation(key + '/not-returned', {'task': list(task)}, f'mv_{op} did not return the supplied out array (out ignored)')
+                elif not np.all(ref.same_mod_unknown(out, exp)):
+                    res.violation(key + '/wrong', {'task': list(task)}, f'mv_{op} out array ({layout}) holds {out.tolist()} expected {exp.tolist()}')
+                elif layout == 'strided' and not np.all(buf[..., 1::2] == prefill):
+                    res.violation(key + '/outside', {'task': list(task)}, f'mv_{op} wrote outside the supplied strided out array')
                 res.evals += 1
-                continue
-            if r is not out:
-                res.violation(key + '/not-returned', {'task': list(task)}, f'mv_{op} did not return the supplied out array (out ignored)')
-            elif not np.all(ref.same_mod_unknown(out, exp)):
-                res.violation(key + '/wrong', {'task': list(task)}, f'mv_{op} out array holds {out.tolist()} expected {exp.tolist()}')
-            res.evals += 1
-            res.sig(('out', op, a.shape, prefill))
+                res.sig(('out', op, a.shape, prefill, layout))
     # aliasing out with the operand, as the logic simulator does for inversion
     for planes, name in ((3, 'bp8v_not'), (2, 'bp4v_not'), (3, 'bp8v_buf'), (2, 'bp4v_buf')):
         vals = allv if planes == 3 else allv[:4]
